@@ -10,7 +10,8 @@
 namespace Octo.Utf8
 
 abbrev Bytes := List UInt8
-abbrev Rune := Nat
+/-- runes are natural numbers (a notation, not a definition, so that `omega`/`simp` see `Nat` literals) -/
+scoped notation "Rune" => Nat
 
 /-- `utf8.RuneError` -/
 def runeError : Rune := 0xFFFD
